@@ -1189,12 +1189,19 @@ func (r *Runtime) typedArrayProto_sort(call FunctionCall) Value {
 			compareFn = r.toCallable(arg)
 		}
 
-		ctx := typedArraySortCtx{
-			ta:      ta,
-			compare: compareFn,
+		if compareFn == nil {
+			sort.Stable(&typedArraySortCtx{ta: ta})
+			return call.This
 		}
 
-		sort.Stable(&ctx)
+		// SortIndexedProperties: the values are collected first, the list is sorted and then written back,
+		// so whatever the comparator does to the array (or its buffer) does not take part in the sort.
+		tmp := r.typedArrayCreate(ta.defaultCtor, intToValue(int64(ta.length)))
+		copy(tmp.viewedArrayBuf.data, ta.viewedArrayBuf.data[ta.offset*ta.elemSize:(ta.offset+ta.length)*ta.elemSize])
+		sort.Stable(&typedArraySortCtx{ta: tmp, compare: compareFn})
+		if ta.viewedArrayBuf.ensureNotDetached(false) {
+			copy(ta.viewedArrayBuf.data[ta.offset*ta.elemSize:(ta.offset+ta.length)*ta.elemSize], tmp.viewedArrayBuf.data)
+		}
 		return call.This
 	}
 	panic(r.NewTypeError("Method TypedArray.prototype.sort called on incompatible receiver %s", r.objectproto_toString(FunctionCall{This: call.This})))
